@@ -403,50 +403,128 @@ func runFieldCreateUnderLock(c *core.Ctx) {
 		}
 		c.Check("publish-under-lock", f.Name+"/unlock-deferred", f.PosStr(), def, "the mutex must be held until the new map is stored (deferred unlock)")
 		// whenever the field is found (before or after taking the mutex) success requires the types to agree
-		found := func(x ast.Expr) bool {
-			be, ok := ast.Unparen(x).(*ast.BinaryExpr)
-			return ok && be.Op == token.NEQ && isNilExpr(info, be.Y) && !strings.Contains(core.ExprStr(be.X), ".")
-		}
-		typeDiff := func(x ast.Expr) bool {
-			be, ok := ast.Unparen(x).(*ast.BinaryExpr)
-			return ok && (be.Op == token.NEQ || be.Op == token.EQL) && strings.HasSuffix(core.ExprStr(be.X), ".Type")
-		}
-		bad := ""
-		k := 0
-		complete := f.Flow().ExplorePaths(func(kk core.VarKey, fct core.Fact) bool {
-			return kk.Root == nil && strings.HasPrefix(kk.Path, "cond:") && fct.Def != nil && (found(fct.Def) || typeDiff(fct.Def))
-		}, func(e *core.Event, st core.State) {
-			if e.Kind != core.EvReturn {
-				return
+		checkFound := func(g *core.FuncInfo, errIdx int) (int, string, bool) {
+			ginfo := g.Info()
+			found := func(x ast.Expr) bool {
+				be, ok := ast.Unparen(x).(*ast.BinaryExpr)
+				return ok && (be.Op == token.NEQ || be.Op == token.EQL) && isNilExpr(ginfo, be.Y) && !strings.Contains(core.ExprStr(be.X), ".")
 			}
-			x, _ := f.ResultExpr(e, 0)
-			if x == nil || !isNilExpr(info, x) {
-				return
+			typeDiff := func(x ast.Expr) bool {
+				be, ok := ast.Unparen(x).(*ast.BinaryExpr)
+				return ok && (be.Op == token.NEQ || be.Op == token.EQL) && strings.HasSuffix(core.ExprStr(be.X), ".Type")
 			}
-			// was an existing field found on this path (most recent `f != nil` test true)?
-			wasFound := false
-			for kk, fct := range st {
-				if kk.Root == nil && strings.HasPrefix(kk.Path, "cond:") && fct.Def != nil && found(fct.Def) && fct.Bool == 1 {
-					wasFound = true
+			bad := ""
+			k := 0
+			complete := g.Flow().ExplorePaths(func(kk core.VarKey, fct core.Fact) bool {
+				return kk.Root == nil && strings.HasPrefix(kk.Path, "cond:") && fct.Def != nil && (found(fct.Def) || typeDiff(fct.Def))
+			}, func(e *core.Event, st core.State) {
+				if e.Kind != core.EvReturn {
+					return
 				}
-			}
-			if !wasFound {
-				return
-			}
-			k++
-			okType := false
-			for kk, fct := range st {
-				if kk.Root == nil && strings.HasPrefix(kk.Path, "cond:") && fct.Def != nil && typeDiff(fct.Def) {
-					be := ast.Unparen(fct.Def).(*ast.BinaryExpr)
-					if (be.Op == token.NEQ && fct.Bool == 2) || (be.Op == token.EQL && fct.Bool == 1) {
-						okType = true
+				x, _ := g.ResultExpr(e, errIdx)
+				if x == nil || !isNilExpr(ginfo, x) {
+					return
+				}
+				// was an existing field found on this path (most recent `f != nil` test true)?
+				wasFound := false
+				for kk, fct := range st {
+					if kk.Root == nil && strings.HasPrefix(kk.Path, "cond:") && fct.Def != nil && found(fct.Def) {
+						be := ast.Unparen(fct.Def).(*ast.BinaryExpr)
+						if (be.Op == token.NEQ && fct.Bool == 1) || (be.Op == token.EQL && fct.Bool == 2) {
+							wasFound = true
+						}
 					}
 				}
+				if !wasFound {
+					return
+				}
+				k++
+				okType := false
+				for kk, fct := range st {
+					if kk.Root == nil && strings.HasPrefix(kk.Path, "cond:") && fct.Def != nil && typeDiff(fct.Def) {
+						be := ast.Unparen(fct.Def).(*ast.BinaryExpr)
+						if (be.Op == token.NEQ && fct.Bool == 2) || (be.Op == token.EQL && fct.Bool == 1) {
+							okType = true
+						}
+					}
+				}
+				if !okType {
+					bad = g.Name + " returns success @" + c.P.Pos(e.Pos()) + " for a field that already exists without comparing its type with the requested one: two concurrent writers that introduce the same new field with different types are both acknowledged and the field holds values of two types"
+				}
+			})
+			return k, bad, complete
+		}
+		k, bad, complete := checkFound(f, 0)
+		if complete && k == 0 {
+			// the found-and-type test extracted into a helper `exists, err := h(fields, name, typ)`: the rule is
+			// applied inside h, and every return of f under an established `exists` hands back h's error
+			type hcall struct{ ex, er types.Object }
+			var calls []hcall
+			var h *core.FuncInfo
+			ast.Inspect(f.Body, func(nd ast.Node) bool {
+				as, ok := nd.(*ast.AssignStmt)
+				if !ok || as.Tok != token.DEFINE || len(as.Lhs) != 2 || len(as.Rhs) != 1 {
+					return true
+				}
+				ce, ok := as.Rhs[0].(*ast.CallExpr)
+				if !ok {
+					return true
+				}
+				fn, _ := core.Callee(info, ce).(*types.Func)
+				g := c.P.FuncOf(fn)
+				if g == nil || g.Pkg != f.Pkg || g.NumResults() != 2 || g.ErrResultIndex() != 1 || (h != nil && g != h) {
+					return true
+				}
+				exID, ok1 := as.Lhs[0].(*ast.Ident)
+				erID, ok2 := as.Lhs[1].(*ast.Ident)
+				if !ok1 || !ok2 {
+					return true
+				}
+				h = g
+				calls = append(calls, hcall{info.ObjectOf(exID), info.ObjectOf(erID)})
+				return true
+			})
+			if h != nil {
+				hk, hbad, hcomplete := checkFound(h, 1)
+				k, bad, complete = 0, hbad, hcomplete && hk >= 1
+				isEx := func(x ast.Expr) types.Object {
+					id, ok := ast.Unparen(x).(*ast.Ident)
+					if !ok {
+						return nil
+					}
+					for _, hc := range calls {
+						if info.ObjectOf(id) == hc.ex {
+							return hc.er
+						}
+					}
+					return nil
+				}
+				c2 := f.Flow().ExplorePaths(func(kk core.VarKey, fct core.Fact) bool {
+					return kk.Root == nil && strings.HasPrefix(kk.Path, "cond:") && fct.Def != nil && isEx(fct.Def) != nil
+				}, func(e *core.Event, st core.State) {
+					if e.Kind != core.EvReturn {
+						return
+					}
+					var er types.Object
+					for kk, fct := range st {
+						if kk.Root == nil && strings.HasPrefix(kk.Path, "cond:") && fct.Def != nil && fct.Bool == 1 {
+							if o := isEx(fct.Def); o != nil {
+								er = o
+							}
+						}
+					}
+					if er == nil {
+						return
+					}
+					k++
+					x, _ := f.ResultExpr(e, 0)
+					if id, ok := ast.Unparen(x).(*ast.Ident); !ok || info.ObjectOf(id) != er {
+						bad = "CreateFieldIfNotExists returns @" + c.P.Pos(e.Pos()) + " for a field that " + h.Name + " reported as existing without handing back that helper's verdict on its type"
+					}
+				})
+				complete = complete && c2
 			}
-			if !okType {
-				bad = "CreateFieldIfNotExists returns success @" + c.P.Pos(e.Pos()) + " for a field that already exists without comparing its type with the requested one: two concurrent writers that introduce the same new field with different types are both acknowledged and the field holds values of two types"
-			}
-		})
+		}
 		c.Need(complete && k >= 2, "success returns for an existing field in CreateFieldIfNotExists")
 		c.Check("existing-field-type-compared", f.Name+"/found-returns", f.PosStr(), bad == "", bad)
 	}
